@@ -23,6 +23,7 @@ class Injector:
         self.instr_cos = list(instr_cos)
         self.p_instr = p_instr
         self.instr_yields = 0
+        self.instr_p = {}      # per-code-object override of p_instr
         self.seed = seed
         self.p_yield, self.p_sleep = p_yield, p_sleep
         self.tl = threading.local()
@@ -56,7 +57,7 @@ class Injector:
             time.sleep(r.choice([0.00005, 0.0002, 0.0005]))
 
     def _on_instruction(self, code, offset):
-        if not self.p_instr:
+        if not self.p_instr and not self.instr_p:
             return
         r = getattr(self.tl, "r", None)
         if r is None:
@@ -64,7 +65,8 @@ class Injector:
                 self.nthreads += 1
                 k = self.nthreads
             r = self.tl.r = random.Random(self.seed * 1000003 + k)
-        if r.random() < self.p_instr:
+        p = self.instr_p.get(code, self.p_instr) if self.instr_p else self.p_instr
+        if r.random() < p:
             self.instr_yields += 1
             time.sleep(r.choice([0, 0, 0.0001, 0.0005, 0.002]))
 
